@@ -503,7 +503,7 @@ var tiers = map[string]map[string]tierSpec{
 		"C01":     {240000, 15000, 150},
 		"C04":     {32000, 1000, 150},
 		"C06":     {48000, 1500, 150},
-		"C08":     {1600, 50, 150},
+		"C08":     {2400, 75, 150},
 		"C10":     {32000, 1000, 150},
 		"C11":     {64000, 640, 150},
 		"C12":     {24000, 250, 150},
